@@ -51,6 +51,7 @@ HOST_CHAINS_QUICK = (
     ("com", "blogspot.com", "x.blogspot.com"),               # private multi-label suffix
     ("com", "evil.com", "localhost.evil.com"),               # host that merely starts like a special host
     ("com", "1.com", "2.1.com", "3.2.1.com", "4.3.2.1.com"),
+    ("com", "a.com", "\u0130stanbul.a.com", "www.\u0130stanbul.a.com"),   # a label whose lower-casing changes its length (capital dotted I)
     ("localhost", "api.localhost", "v1.api.localhost"),      # names under a special host  # numeric labels: what is left of the public suffix looks like an IPv4 address
 )
 HOST_CHAINS_THOROUGH = HOST_CHAINS_QUICK + (
